@@ -210,3 +210,72 @@ Proof.
       intros h'; simpl; unfold set_h; simpl; upds; simpl; auto;
       try (destruct (Nat.eqb _ _); simpl; auto).
 Qed.
+
+Lemma mstep_add s m pub hon sub s' evs : SInv s -> MInv s m -> okbad m ->
+  step s (LAdd pub hon sub) = Some (s', evs) -> MInv s' (mon_run m evs) /\ okbad (mon_run m evs).
+Proof.
+  intros I K B H. unfold step in H. destruct (hlock s) eqn:HL; [discriminate|]. cbv zeta in H.
+  simpl fix14 in H. simpl hadded in H. simpl wat in H.
+  assert (G : forall s2, nexth s2 = S (nexth s) ->
+               hs s2 = upd (hs s) (nexth s) (h0 <| h_pub := pub |> <| h_hon := hon |> <| h_sub := sub |> <| h_inmap := true |>) ->
+               pubClosed s2 = pubClosed s -> thr s2 = thr s -> isRunning s2 = isRunning s -> mainp s2 = mainp s ->
+               maint s2 = maint s -> run_n s2 = run_n s ->
+               MInv s2 (m <| m_n := S (m_n m) |> <| m_pub := upd (m_pub m) (m_n m) pub |>)).
+  { intros s2 E1 E2 E3 E4 E5 E6 E7 E8.
+    pose proof (i_fresh _ I) as Fr. pose proof (i_run_n_le _ I) as RL. dK K.
+    constructor; simpl; rewrite ?E1, ?E2, ?E3, ?E4, ?E5, ?E6, ?E7, ?E8, ?K1; auto; try lia.
+    all: try solve [intros h Hh; unfold upd; destruct (Nat.eqb h (nexth s)) eqn:Q; simpl; [reflexivity|];
+                    apply K2; apply Nat.eqb_neq in Q; lia].
+    all: try solve [intros h; unfold upd; destruct (Nat.eqb h (nexth s)) eqn:Q; simpl; auto;
+                    apply Nat.eqb_eq in Q; subst; rewrite K4, Fr by lia; reflexivity].
+    all: try solve [intros h X; unfold upd; destruct (Nat.eqb h (nexth s)) eqn:Q; simpl; auto;
+                    apply Nat.eqb_eq in Q; subst; apply K5 in X; rewrite Fr in X by lia; discriminate].
+    all: try solve [intros t; specialize (K13 t); lia]. }
+  destr H; injection H as <- <-; simpl; (split; [|okb B]);
+    first [apply G; reflexivity | eapply minv_mon; [apply G; reflexivity|reflexivity..]].
+Qed.
+
+Lemma mstep_calls s m l s' evs : SInv s -> MInv s m -> okbad m ->
+  (exists t, l = LRunCall t \/ (exists par, l = LRHCall t par) \/ (exists h, l = LStopCall t h) \/ l = LCloseCall t) ->
+  step s l = Some (s', evs) -> MInv s' (mon_run m evs) /\ okbad (mon_run m evs).
+Proof.
+  intros I K B (t & [-> | [(par & ->) | [(h & ->) | ->]]]) H; unfold step in H;
+    destruct (thr s t) eqn:E; try discriminate H.
+  - (* LRunCall *) injection H as <- <-. simpl.
+    assert (Ir := k_running _ _ K). assert (NM : thr s t <> TMain) by congruence.
+    split; [|destruct (m_runcalled m); okb B].
+    dK K. destruct K10 as [KA KB].
+    destruct (m_runcalled m) eqn:RC; constructor; simpl; rewrite ?K1; auto; try lia.
+    all: try (intros t' h a X [Y|Y]; (updt t t'; [discriminate|eauto])).
+    all: try (intros t'; unfold upd; destruct (Nat.eqb t' t); auto).
+    all: try (intros X; destruct (K9 X) as [A1 A2]; split;
+              [unfold upd; destruct (Nat.eqb (maint s) t) eqn:Q; auto; apply Nat.eqb_eq in Q; congruence
+              |destruct (Nat.eq_dec (maint s) t) as [Q|Q]; [congruence|rewrite upd_other by exact Q; exact A2]]).
+    all: try (split; [auto|intros t' X; auto]).
+    all: try (split; [intros X; specialize (KA X); congruence|intros; reflexivity]).
+    all: try (intros X; exfalso; assert (Y : mainp s <> RNone) by (intros Z; rewrite Z in X; discriminate);
+              specialize (KA Y); congruence).
+    all: try solve [eauto | intros X; eapply K8; eauto | intros X; apply Ir; exact X].
+  - (* LRHCall *)
+    injection H as <- <-. assert (NM : thr s t <> TMain) by congruence.
+    assert (K' : MInv (set_t s t (TRH par HCheck)) (m <| m_rh_n := upd (m_rh_n m) t (m_n m) |>)).
+    { pose proof (minv_thr s m t (TRH par HCheck) K NM) as K'.
+      specialize (K' ltac:(discriminate) ltac:(discriminate) ltac:(discriminate)).
+      assert (E1 := k_n _ _ K). dK K'. constructor; simpl; auto.
+      intros t'. unfold upd. destruct (Nat.eqb t' t); auto. simpl in *. lia. }
+    destruct par; simpl; (split; [|okb B]); first [exact K' | eapply minv_mon; [exact K'|reflexivity..]].
+  - (* LStopCall *)
+    destruct (Nat.ltb h (nexth s)) eqn:Hl; [|discriminate]. injection H as <- <-. simpl.
+    split; [apply minv_note|apply okbad_note; okb B].
+    assert (S5 := k_sobs _ _ K). dK K. constructor; simpl; auto.
+    + intros t' h' a. unfold upd at 1. destruct (Nat.eqb t' t) eqn:Q.
+      * apply Nat.eqb_eq in Q. subst. rewrite upd_same. intros X [Y|Y]; [|discriminate].
+        injection Y as <- <-. apply S5 in X. exact X.
+      * apply Nat.eqb_neq in Q. rewrite upd_other by exact Q. eauto.
+    + intros X. destruct (K9 X) as [A1 A2]. split; auto.
+      destruct (Nat.eq_dec (maint s) t) as [Q|Q]; [congruence|rewrite upd_other by exact Q; exact A2].
+    + destruct K10 as [A1 A2]. split; auto. intros t' X. updt t t'; [discriminate|eauto].
+  - (* LCloseCall *)
+    injection H as <- <-. simpl. assert (NM : thr s t <> TMain) by congruence.
+    split; [|okb B]. eapply minv_mon; [apply minv_thr; [exact K|exact NM|discriminate..]|reflexivity..].
+Qed.
